@@ -9,7 +9,7 @@
    - the executable oracles C10_client_ok, C10_session_ok, C10_reject_clean,
      C10_reissue_ok hold of the model. *)
 From Coq Require Import ZArith List Bool Lia.
-From ST Require Import Base.Ints Model.NtsAuth Proofs.NtsAuthProofs Proofs.NtsAuthComplete.
+From ST Require Import Base.Ints Model.NtsAuth Proofs.NtsAuthProofs Proofs.NtsAuthComplete Proofs.NtsAuthInstance.
 Import ListNotations.
 Open Scope Z_scope.
 
@@ -194,15 +194,6 @@ Proof.
     apply (proj1 (c10_tamper seal open HI _ _ _ _ _ _ V D eq_refl (or_introl (fun E => Hd (eq_sym E))))).
 Qed.
 
-(* ---- the packet oracle under the weaker hypotheses ---- *)
-Lemma siv_packet_oracle : forall seal open, aead_siv seal open ->
-  forall hs b key dir reqid,
-  (forall h, In h hs -> honest_ok seal h) -> unforgeable seal hs b key dir ->
-  (forall h, In h hs -> model_accepts open (h_bytes h) (h_key h) (h_dir h) (h_uid h) = true) ->
-  (dir = 0 \/ dir = 1) ->
-  C10_packet_ok hs b key dir reqid (model_accepts open b key dir reqid) = true.
-Proof. intros seal open [A [B [C D]]]. intros. eapply model_meets_packet_oracle; eauto. Qed.
-
 (* ---- the client's receive loop meets its oracle ---- *)
 Lemma client_loop_accept : forall open dl key reqid ds retries i k,
   client_loop open dl key reqid ds retries i = Some k ->
@@ -225,7 +216,7 @@ Qed.
 
 Definition used_of (r : option nat) : Z := match r with Some i => Z.of_nat i | None => -1 end.
 
-Theorem model_meets_client_oracle : forall seal open, aead_siv seal open ->
+Theorem model_meets_client_oracle : forall seal open, ideal_aead seal open ->
   forall hs ds key reqid dl,
   (forall h, In h hs -> honest_ok seal h) ->
   (forall b, In b ds -> unforgeable seal hs b key 1) ->
@@ -292,4 +283,39 @@ Proof.
     - unfold cookie_seal, sc_encrypt in E. rewrite Hk in E. discriminate.
     - unfold cookie_seal, sc_encrypt in E. rewrite Hk in E. discriminate. }
   unfold C10_reissue_ok. rewrite X. destruct replied; reflexivity.
+Qed.
+
+(* ---- "the use of a different key is rejected" does not follow from what
+   AES-SIV provides: the cipher ex2 (Proofs/NtsAuthInstance.v) meets aead_siv,
+   and a request that the project's encoder seals under the key k2 is accepted
+   by the server under the different key k1 (same first half) ---- *)
+Lemma ex2_seal_empty_half : forall k k' n ad,
+  mac_half k = mac_half k' -> ex2_seal k n ad [] = ex2_seal k' n ad [].
+Proof. intros k k' n ad H. unfold ex2_seal, keypart. rewrite H. reflexivity. Qed.
+
+Theorem different_key_clause_refuted :
+  aead_siv ex2_seal ex2_open /\
+  exists k1 k2 hdr uid rnd b r,
+    k1 <> k2 /\ key_ok k1 = true /\ key_ok k2 = true /\
+    enc_packet ex2_seal hdr uid [] [] k2 [] rnd = Ok b /\
+    server_accept ex2_open b k1 = Ok r.
+Proof.
+  split; [exact (conj ex2_open_seal (conj ex2_open_only_seal (conj ex2_seal_inj_siv ex2_seal_len)))|].
+  set (k1 := repeat 1 32). set (k2 := repeat 1 16 ++ repeat 2 16).
+  set (hdr := repeat 0 48). set (uid := repeat 3 32). set (rnd := repeat 9 16).
+  assert (Hh : length hdr = 48%nat) by reflexivity.
+  assert (Hu : (32 <= length uid)%nat) by (unfold uid; rewrite repeat_length; lia).
+  assert (Hr : length rnd = 16%nat) by reflexivity.
+  assert (Hfit : (enc_len uid [] [] [] <= MaxPacketLen)%nat) by (vm_compute; lia).
+  assert (Hk1 : key_ok k1 = true) by reflexivity.
+  assert (Hk2 : key_ok k2 = true) by reflexivity.
+  assert (Hm : mac_half k2 = mac_half k1) by reflexivity.
+  destruct (encoder_accepted ex2_seal ex2_open ex2_open_seal ex2_seal_len hdr uid [] [] k1 [] rnd [] Hh Hu Hk1 Hr Hfit eq_refl)
+    as [_ [_ [_ [S1 _]]]].
+  destruct (encoder_accepted ex2_seal ex2_open ex2_open_seal ex2_seal_len hdr uid [] [] k2 [] rnd [] Hh Hu Hk2 Hr Hfit eq_refl)
+    as [E2 _].
+  cbv zeta in S1, E2.
+  rewrite (ex2_seal_empty_half k2 k1 _ _ Hm) in E2.
+  eexists k1, k2, hdr, uid, rnd, _, _.
+  split; [discriminate|]. split; [exact Hk1|]. split; [exact Hk2|]. split; [exact E2|exact S1].
 Qed.
